@@ -18,7 +18,7 @@ func init() {
 	Register(&Property{
 		ID:             "C02",
 		Run:            runC02,
-		Rule:           "runs = seeded histories of valid reports (replays, re-signed variants, boundary values) through a duplicating/reordering fabric, plus (thorough) exhaustive sequences up to length 4 over 2 devices x 2 slots x 3 values; non-trivial = at least one equivocation, over-capacity, replay or fabric fault happened; distinct = distinct decision signatures",
+		Rule:           "runs = seeded histories of valid reports (replays, re-signed variants, boundary values) through a duplicating/reordering fabric, a restart 0-1000 slots later without rotation, plus (thorough) exhaustive sequences up to length 4 over 2 devices x 2 slots x 3 values; non-trivial = at least one equivocation, over-capacity, replay or fabric fault happened; distinct = distinct decision signatures",
 		Real:           []string{"glow codecs and secp256k1", "server report handler (parse, verify, window checks, integrate, persist)", "server HTTP handlers (stats, recent reports)", "TCP sync handler", "background loops", "real files on tmpfs"},
 		Stub:           []string{"UDP socket read loop (modelled: leading 80 bytes of datagrams >= 80 bytes)", "HTTP/TCP accept loops"},
 		Assumptions:    []string{"fresh ids always carry fresh keys"},
